@@ -171,8 +171,9 @@ func (cmd *genCmd) Execute(ctx context.Context, f *flag.FlagSet, args ...interfa
 }
 
 type diffCmd struct {
-	headerFile string
-	tags       string
+	headerFile     string
+	prefixFileName string
+	tags           string
 }
 
 func (*diffCmd) Name() string { return "diff" }
@@ -193,6 +194,7 @@ func (*diffCmd) Usage() string {
 }
 func (cmd *diffCmd) SetFlags(f *flag.FlagSet) {
 	f.StringVar(&cmd.headerFile, "header_file", "", "path to file to insert as a header in wire_gen.go")
+	f.StringVar(&cmd.prefixFileName, "output_file_prefix", "", "string to prepend to output file names.")
 	f.StringVar(&cmd.tags, "tags", "", "append build tags to the default wirebuild")
 }
 func (cmd *diffCmd) Execute(ctx context.Context, f *flag.FlagSet, args ...interface{}) subcommands.ExitStatus {
@@ -211,6 +213,7 @@ func (cmd *diffCmd) Execute(ctx context.Context, f *flag.FlagSet, args ...interf
 		return errReturn
 	}
 
+	opts.PrefixOutputFile = cmd.prefixFileName
 	opts.Tags = cmd.tags
 
 	outs, errs := wire.Generate(ctx, wd, os.Environ(), packages(f), opts)
